@@ -65,6 +65,9 @@ func Main(prop string, gen func(r *vh.Rand, i int) *Scenario, probes func() []*S
 		case res.CompileErr[sc.Name] != "":
 			impl = "COMPILE-ERROR " + res.CompileErr[sc.Name]
 			o.Oracle(sc.Kind+"-rejected-by-compiler", line, impl)
+		case res.GoErr[sc.Name] != "":
+			impl = "GO-BUILD-ERROR " + res.GoErr[sc.Name]
+			o.Oracle(sc.Kind+"-output-is-not-valid-go", line, impl)
 		case res.BuildErr != "":
 			impl = "GO-BUILD-ERROR " + firstLine(res.BuildErr)
 		case !ok:
@@ -85,22 +88,13 @@ func Main(prop string, gen func(r *vh.Rand, i int) *Scenario, probes func() []*S
 		}
 		o.Count(fmt.Sprintf("events_%s", bucket(strings.Count(impl, "|")+1)))
 		o.Case(line, impl, strings.Count(impl, "|") >= 2)
-		if res.CompileErr[sc.Name] == "" && res.BuildErr == "" {
+		if res.CompileErr[sc.Name] == "" && res.BuildErr == "" && res.GoErr[sc.Name] == "" {
 			// structural tie: what the compiler emitted for this scenario's functions
 			var names []string
 			for _, fn := range sc.Prog.Funcs {
 				names = append(names, fn.Name)
 			}
 			o.Case("minigo\t"+sc.Prog.SExp()+"\t"+ident[sc.Name], norm.Funcs(names), false)
-		}
-	}
-	if res.BuildErr != "" {
-		// a package that the XGo compiler accepted but Go rejects: attribute by building one by one
-		for _, sc := range scs {
-			one, e := BuildAndRun(work, []*Scenario{sc}, 30*time.Second)
-			if e == nil && one.BuildErr != "" {
-				o.Oracle(sc.Kind+"-output-is-not-valid-go", "mini\t"+sc.Prog.SExp()+"\t"+ident[sc.Name], firstLine(one.BuildErr))
-			}
 		}
 	}
 	if probes != nil && f.Replay == "" {
@@ -122,9 +116,11 @@ func runProbe(o *vh.Out, work string, p *Scenario) {
 	case res.CompileErr[p.Name] != "":
 		impl = "reject"
 		o.Oracle(p.Note+"-rejected-by-compiler", line, res.CompileErr[p.Name])
-	case res.BuildErr != "":
+	case res.GoErr[p.Name] != "":
 		impl = "reject"
-		o.Oracle(p.Note+"-output-is-not-valid-go", line, lastLine(res.BuildErr))
+		o.Oracle(p.Note+"-output-is-not-valid-go", line, res.GoErr[p.Name])
+	case res.BuildErr != "":
+		impl = "HARNESS-ERROR " + lastLine(res.BuildErr)
 	default:
 		if res.X[p.Name] != res.G[p.Name] {
 			o.Oracle(p.Note+"-differs-from-documented-expansion", line, "compiled="+res.X[p.Name]+" expansion="+res.G[p.Name])
